@@ -60,7 +60,8 @@ def gen_frame_case(rng):
     limit = int(rng.choice([1, (2 * c) ** 2 * 4, (2 * c) ** 2 * 4 * 2 + 1, 2 ** 19]))
     upsample = [False, False, True, 4][int(rng.integers(0, 4))]
     return dict(pattern=pattern, desc=desc, data=data, peaks=peaks, zs=zs, zk=zk, limit=limit, upsample=upsample,
-                parts=rand_partitions(rng, n), method=str(rng.choice(['fast', 'full'])), crop=str(rng.choice(['default', 'slicing'])), backend=backend)
+                parts=rand_partitions(rng, n), method=str(rng.choice(['fast', 'full'])), crop=str(rng.choice(['default', 'slicing'])), backend=backend,
+                prerun_radius=(float(desc['radius']) * 0.7 if rng.integers(0, 4) == 0 else None))
 
 
 def make_udf(c):
@@ -87,6 +88,13 @@ def standalone(c, i):
 def frame_udf_failure(c):
     try:
         override = {'crop_function': blc.crop_disks_from_frame_slicing} if c['crop'] == 'slicing' else None
+        if c.get('prerun_radius'):
+            # the same pattern OBJECT was used for an earlier run while its public radius had another value (the library re-reads the parameters)
+            p_ = c['pattern']
+            r_now = p_.radius
+            p_.radius = c['prerun_radius']
+            run_udf(make_udf(c), c['data'][:1], task_data_override=override, backend=c.get('backend', 'numpy'))
+            p_.radius = r_now
         res = run_udf(make_udf(c), c['data'], partitions=c['parts'], task_data_override=override, backend=c.get('backend', 'numpy'))
     except Exception as e:  # noqa
         return 'UDF run raised %s: %s' % (type(e).__name__, e)
@@ -96,8 +104,8 @@ def frame_udf_failure(c):
         sc = float(np.abs(ref[2]).max()) + 1.0
         if not cl.results_close(got, ref, rtol=1e-5, scale=sc):
             k = [j for j in range(len(pk)) if not cl.results_close(tuple(g[j:j + 1] for g in got), tuple(r[j:j + 1] for r in ref), 1e-5, sc)][0]
-            return ('frame %d peak %s (%s UDF, back-end %s, partitions %s, limit %d, zero shift %s, crop %s, upsample %s): UDF centre %s refined %s height %.6g, stand-alone centre %s refined %s height %.6g'
-                    % (i, pk[k].tolist(), c['method'], c.get('backend', 'numpy'), c['parts'], c['limit'], c['zk'], c['crop'], c['upsample'], got[0][k].tolist(), got[1][k].tolist(), got[2][k],
+            return ('frame %d peak %s (%s UDF%s, back-end %s, partitions %s, limit %d, zero shift %s, crop %s, upsample %s): UDF centre %s refined %s height %.6g, stand-alone centre %s refined %s height %.6g'
+                    % (i, pk[k].tolist(), c['method'], ' whose pattern object was used before with radius %s' % c['prerun_radius'] if c.get('prerun_radius') else '', c.get('backend', 'numpy'), c['parts'], c['limit'], c['zk'], c['crop'], c['upsample'], got[0][k].tolist(), got[1][k].tolist(), got[2][k],
                        ref[0][k].tolist(), ref[1][k].tolist(), ref[2][k]))
     return None
 
@@ -201,7 +209,7 @@ def mk_replay_frame(c, fail):
     return {'kind': 'schedule', 'call': '%sCorrelationUDF under the stand-in runner' % ('Fast' if c['method'] == 'fast' else 'FullFrame'),
             'args': {'pattern': c['desc'], 'data': c['data'].tolist(), 'dtype': str(c['data'].dtype), 'peaks': c['peaks'].tolist(), 'zero_shift_kind': c['zk'],
                      'zero_shift': None if c['zs'] is None else np.asarray(c['zs']).tolist(), 'limit': c['limit'], 'upsample': c['upsample'], 'partitions': c['parts'],
-                     'method': c['method'], 'crop': c['crop'], 'backend': c.get('backend', 'numpy')}, 'failure': fail}
+                     'method': c['method'], 'crop': c['crop'], 'backend': c.get('backend', 'numpy'), 'prerun_radius': c.get('prerun_radius')}, 'failure': fail}
 
 
 def replay(body):
@@ -212,7 +220,7 @@ def replay(body):
     else:
         c = dict(pattern=cl.pattern_from_desc(a['pattern']), desc=a['pattern'], data=np.array(a['data'], dtype=a['dtype']), peaks=np.array(a['peaks']),
                  zs=None if a['zero_shift'] is None else np.array(a['zero_shift']), zk=a['zero_shift_kind'], limit=a['limit'], upsample=a['upsample'], parts=a['partitions'],
-                 method=a['method'], crop=a['crop'], backend=a.get('backend', 'numpy'))
+                 method=a['method'], crop=a['crop'], backend=a.get('backend', 'numpy'), prerun_radius=a.get('prerun_radius'))
         fail = frame_udf_failure(c)
     print(json.dumps({'failure_now': fail}, indent=1))
     if fail:
